@@ -66,3 +66,13 @@ func (k ObjectNodeKeys) Get(key string, isShortcut bool) (ObjectNodeKey, bool) {
 	}
 	return ObjectNodeKey{}, false
 }
+
+// HasShortcuts tells whether at least one key is a key shortcut (ex: @catId).
+func (k ObjectNodeKeys) HasShortcuts() bool {
+	for _, v := range k.Data {
+		if v.IsShortcut {
+			return true
+		}
+	}
+	return false
+}
